@@ -18,4 +18,5 @@ VARIANTS = [
     V('latex-int-conversion-unguarded', D, ("strr+= str(round(val, nd))", "val = round(val, nd)\n            if nd == 0:\n                val = int(val)\n            strr+= str(val)"), 'fire', 'R20.4'),
     V('latex-round-on-raw-element', D, ("val = matrix[i, j]\n            if not hasattr(val, '__round__'):\n                #numpy.bool has no __round__\n                val = float(val)\n            strr+= str(round(val, nd))", "strr+= str(round(matrix[i, j], nd))"), 'fire', 'R20.5'),
     V('benign-latex-float-conversion-first', D, ("val = matrix[i, j]\n            if not hasattr(val, '__round__'):\n                #numpy.bool has no __round__\n                val = float(val)\n            strr+= str(round(val, nd))", "strr+= str(round(float(matrix[i, j]), nd))"), 'silent'),
+    V('disp-snaps-small-values-before-rendering', D, ("if mode == 0:", "if hasattr(matrix, 'dtype') and matrix.dtype.kind == 'f':\n        matrix = matrix * (abs(matrix) >= 10**-nd)\n    if mode == 0:"), 'fire', 'R20.1'),
 ]
